@@ -98,7 +98,11 @@ class StmtMixin:
             cls = obj.kind.target.cls
             fk = self.field_kind(cls, t.attr)
             if fk is None:
-                raise Unsupported(f"store to undeclared field {cls}.{t.attr}", node)
+                if isinstance(v.kind, Ref) or v.kind in (INT, BOOL, REAL):
+                    fk = v.kind if not isinstance(v.kind, Ref) else Ref(ObjT("object"), optional=True)
+                    self.note_assumption(f"store to the undeclared field {cls}.{t.attr}")
+                else:
+                    raise Unsupported(f"store to undeclared field {cls}.{t.attr}", node)
             self.oblige(st, "safe", f"notnone:{t.attr}", obj.term != 0, node, exc="AttributeError")
             if fk == FN:
                 raise Unsupported("function-valued field store", node)
